@@ -201,6 +201,9 @@ struct SWire {
     genuine: Vec<u8>,
     genuine_ad: Option<Vec<u8>>,
     genuine_key_header: bool,
+    /// when set, both sides start from this stream state (key, nonce with the 32-bit message counter in its first four
+    /// bytes) instead of from init: lets the message counter sit just before its wrap
+    start: Option<([u8; 32], [u8; 12])>,
 }
 
 struct SOut {
@@ -228,6 +231,9 @@ impl SOut {
 fn st_classic(w: &SWire, s: &[u8]) -> Option<SOut> {
     let mut st = ss::State::new();
     ss::crypto_secretstream_xchacha20poly1305_init_pull(&mut st, &w.header, &w.key);
+    if let Some((k, n)) = w.start {
+        st = ss::State::verif_from_parts(k, n);
+    }
     for p in &w.prior {
         let mut m = vec![0u8; p.len() - 17];
         let mut t = 0u8;
@@ -260,7 +266,10 @@ fn st_classic(w: &SWire, s: &[u8]) -> Option<SOut> {
 }
 
 fn st_object(w: &SWire, _s: &[u8]) -> Option<SOut> {
-    let mut st: DryocStream<Pull> = DryocStream::init_pull(&w.key, &w.header);
+    let mut st: DryocStream<Pull> = match w.start {
+        Some((k, n)) => DryocStream::<Pull>::verif_from_state(ss::State::verif_from_parts(k, n)),
+        None => DryocStream::init_pull(&w.key, &w.header),
+    };
     for p in &w.prior {
         if st.pull_to_vec(p, None).is_err() {
             return Some(SOut::prior_rejected());
@@ -284,7 +293,10 @@ fn st_object(w: &SWire, _s: &[u8]) -> Option<SOut> {
 }
 
 fn na_stream_accepts(w: &SWire) -> bool {
-    let mut st = na::stream_init_pull(&w.header, &w.key);
+    let mut st = match w.start {
+        Some((k, n)) => na::stream_state(k, n),
+        None => na::stream_init_pull(&w.header, &w.key),
+    };
     for p in &w.prior {
         if na::stream_pull(&mut st, p, None).is_none() {
             return false;
@@ -384,7 +396,8 @@ fn enumerate_stream(cx: &mut Ctx, prop: Prop, sentinel: &[u8], w0: &SWire, msg: 
         let comp = if off == 0 { "encrypted_tag_byte" } else if off < 1 + len { "body" } else { "tag" };
         stream_tampered(cx, prop, sentinel, &w, comp, "bit_flip", &format!("bit {}", bit), len, &mut errs);
     }
-    for bit in 0..192 {
+    // (a stream started from an explicit state does not look at the header: nothing to tamper with there)
+    for bit in (0..192).filter(|_| w0.start.is_none()) {
         let mut w = w0.clone();
         w.genuine_key_header = false;
         flip(&mut w.header, bit);
@@ -394,6 +407,9 @@ fn enumerate_stream(cx: &mut Ctx, prop: Prop, sentinel: &[u8], w0: &SWire, msg: 
         let mut w = w0.clone();
         w.genuine_key_header = false;
         flip(&mut w.key, bit);
+        if let Some((k, _)) = &mut w.start {
+            flip(&mut k[..], bit); // the receiver's state holds the stream key: flip it there
+        }
         stream_tampered(cx, prop, sentinel, &w, "key", "bit_flip", &format!("bit {}", bit), len, &mut errs);
     }
     if let Some(ad) = &w0.ad {
@@ -534,12 +550,12 @@ fn run(cx: &mut Ctx, prop: Prop) {
         }
         // secret stream: AD lengths {none, 0, 1, 16, 17}; message at position 0 and (after a REKEY-tagged message) position 2
         for (ai, adlen) in [None, Some(0usize), Some(1), Some(16), Some(17)].into_iter().enumerate() {
-            for pos in [0usize, 2] {
+            for pos in [0usize, 2, 3] {
                 idx += 1;
                 if !cx.mine(idx) {
                     continue;
                 }
-                if pos == 2 && !(quick_set.contains(&len) || cx.tier == crate::ctx::Tier::Thorough && len <= 100) {
+                if pos >= 2 && !(quick_set.contains(&len) || cx.tier == crate::ctx::Tier::Thorough && len <= 100) {
                     continue;
                 }
                 let mut rng = cx.rng.fork(idx);
@@ -549,8 +565,19 @@ fn run(cx: &mut Ctx, prop: Prop) {
                 let ad = adlen.map(|n| rng.bytes(n));
                 let tag = [0u8, 1, 2, 3][(len + ai) % 4];
                 let (mut st, header) = na::stream_init_push(&key);
+                let mut start = None;
+                if pos == 3 {
+                    // position 3: two earlier messages again, but the 32-bit message counter starts just below its wrap (or in
+                    // the middle of its range), so that the wrap and the rekey it causes happen before the message under test
+                    let c0: u32 = *rng.pick(&[0xffff_fffeu32, 0xffff_ffff, 0xffff_fffd, 0x0001_00ff, 0x00ff_ffff]);
+                    let mut n = st.nonce;
+                    n[..4].copy_from_slice(&c0.to_le_bytes());
+                    st = na::stream_state(st.k, n);
+                    start = Some((st.k, n));
+                    cx.cover("stream_counter_start", &format!("{:#x}", c0));
+                }
                 let mut prior = Vec::new();
-                if pos == 2 {
+                if pos >= 2 {
                     // earlier messages carry any tag byte (REKEY bit set or not, FINAL, application bits)
                     let t1 = *rng.pick(&[0u8, 1, 0x80, 0x41, 0xfc]);
                     let t2 = *rng.pick(&[2u8, 3, 0x82, 0x83, 0xfe, 0xff, 0x02, 0x03]);
@@ -564,7 +591,7 @@ fn run(cx: &mut Ctx, prop: Prop) {
                     cx.cover("stream_prior_lengths", &format!("{},{}", m1.len(), m2.len()));
                 }
                 let ct = na::stream_push(&mut st, &msg, ad.as_deref(), tag);
-                let w0 = SWire { key, header, ad: ad.clone(), prior, ct: ct.clone(), genuine: ct, genuine_ad: ad, genuine_key_header: true };
+                let w0 = SWire { key, header, ad: ad.clone(), prior, ct: ct.clone(), genuine: ct, genuine_ad: ad, genuine_key_header: true, start };
                 cx.key(&format!("stream len={} ad={:?} pos={}", len, adlen, pos));
                 cx.cover("stream_adlen", &format!("{:?}", adlen));
                 cx.cover("stream_position", &format!("{}", pos));
